@@ -167,3 +167,81 @@ def subtree_of(pid, r):
         out.append(x)
         st.extend(ch[x])
     return set(out)
+
+
+# --------------------------------------------------------------------------- an argument typed `Iterable[...]`, in every FORM
+# A parameter documented as `Iterable[int]` (to_subtree's `removals`, ...) may be handed over as any of these.  The re-iterable ones
+# can be walked any number of times; the ONE-SHOT ones (generator expression, iter(...), map / filter / reversed / zip-derived
+# objects, itertools.chain) are empty after the first complete pass, so a callee that walks its argument twice sees nothing the
+# second time.  `unordered` forms do not keep the order / the multiplicities of the items (use them only where the parameter means a set).
+ITERABLE_FORMS = ("list", "tuple", "set", "frozenset", "ndarray-int32", "ndarray-int64", "dict-keys", "dict-as-mapping", "range", "deque",
+                  "generator-expression", "iter-of-list", "map-object", "filter-object", "reversed-object", "chain-object", "generator-function")
+ONE_SHOT_FORMS = ("generator-expression", "iter-of-list", "map-object", "filter-object", "reversed-object", "chain-object", "generator-function")
+UNORDERED_FORMS = ("set", "frozenset")
+DEDUPLICATING_FORMS = ("set", "frozenset", "dict-keys", "dict-as-mapping")
+
+
+def as_iterable(items, form):
+    """`items` (a list of ints) as an iterable of the given form; None when the form cannot hold these items (range: the items must be
+    an arithmetic progression; deduplicating forms: the items must be pairwise distinct or the parameter must mean a set)."""
+    import collections
+
+    items = [int(v) for v in items]
+    if form == "list":
+        return list(items)
+    if form == "tuple":
+        return tuple(items)
+    if form == "set":
+        return set(items)
+    if form == "frozenset":
+        return frozenset(items)
+    if form == "ndarray-int32":
+        return np.array(items, dtype=np.int32)
+    if form == "ndarray-int64":
+        return np.array(items, dtype=np.int64)
+    if form == "dict-keys":
+        return dict.fromkeys(items).keys()
+    if form == "dict-as-mapping":
+        return dict.fromkeys(items)
+    if form == "range":
+        if len(items) == 0:
+            return range(0)
+        if len(items) == 1:
+            return range(items[0], items[0] + 1)
+        step = items[1] - items[0]
+        if step == 0 or any(b - a != step for a, b in zip(items, items[1:])):
+            return None
+        return range(items[0], items[-1] + (1 if step > 0 else -1), step)
+    if form == "deque":
+        return collections.deque(items)
+    if form == "generator-expression":
+        return (v for v in items)
+    if form == "iter-of-list":
+        return iter(list(items))
+    if form == "map-object":
+        return map(int, np.array(items, dtype=np.int64))
+    if form == "filter-object":
+        return filter(lambda v: True, list(items))
+    if form == "reversed-object":
+        return reversed(list(reversed(items)))
+    if form == "chain-object":
+        k = len(items) // 2
+        return itertools.chain(items[:k], items[k:])
+    if form == "generator-function":
+        def gen():
+            yield from items
+
+        return gen()
+    raise ValueError(form)
+
+
+def iterable_forms_for(items, set_like=True):
+    """[(form, iterable)] of every form that can hold `items`; set_like: the parameter means a set (order / repeats do not matter)"""
+    out = []
+    for form in ITERABLE_FORMS:
+        if not set_like and (form in UNORDERED_FORMS or (form in DEDUPLICATING_FORMS and len(set(items)) != len(items))):
+            continue
+        v = as_iterable(items, form)
+        if v is not None:
+            out.append((form, v))
+    return out
